@@ -110,6 +110,17 @@ def check_heading(title_words, phrase, n, sp1, sp2, case):
     return out
 
 
+def file_route(scratch, doc, eol):
+    from recipe_grid.static_site.recipe_directory import compile_recipe_markdown
+    path = scratch / "recipe.md"
+    path.write_bytes(doc.replace("\n", eol).encode("utf-8"))
+    try:
+        mr = compile_recipe_markdown(path, False, False)
+    except Exception as e:  # noqa
+        return (type(e).__name__, str(e)[:100])
+    return (mr.title, mr.servings)
+
+
 def oracle(run):
     rng = run.rng
     titles = ["Stew", "Food & drink", "Tom's pie", "Bread for two", "Tea for 2 and cake", "2 by 4", "Soup", "100% Rye", "Q \"x\"", "a_b"]
@@ -137,15 +148,49 @@ def oracle(run):
            ("Grandma's famous\nSunday roast for 6\n===\n", ("Grandma's famous\nSunday roast", 6)), ("Two line\ntitle\n=====\n", ("Two line\ntitle", None)),
            ("# Soup {v2\\} for 4\n", ("Soup {v2}", 4)), ("Tiffin {nut free\\} SERVES  6\n===\n", ("Tiffin {nut free}", 6)), ("# Hello \\{ and \\} for 3\n", ("Hello { and }", 3)),
            ("# Soup for 0\n", ("Soup", 0))]
-    for doc, (t, n) in neg:
-        mr = M.compile_markdown(doc)
-        run.case(("negative", doc), True, kind="negative")
-        if (mr.title, mr.servings) != (t, n):
-            run.violate("C18:heading-rule-wrong", "%r gives %r, expected %r" % (doc, (mr.title, mr.servings), (t, n)), {"document": doc, "expected": [t, n]})
+    # leading lines of the kind other tools put first: a rule followed by a paragraph with a rule under it is a second-level heading, and it comes first
+    neg += [("---\ntags: soup\n---\n\n# Stew for 6\n", (None, None)), ("---\ntitle: Other\ndate: 2020\n---\n# Stew for 6\n", (None, None)),
+            ("---\n\n---\n\n# Stew for 6\n", ("Stew", 6)), ("---\n# Stew for 6\n", ("Stew", 6)), ("***\nStew for 6\n---\n\n# Soup for 2\n", (None, None))]
+    import shutil
+    from .. import gen_site
+    from recipe_grid.static_site.recipe_directory import compile_recipe_markdown
+    scratch = gen_site.scratch_root()
+    try:
+        for doc, (t, n) in neg:
+            mr = M.compile_markdown(doc)
+            run.case(("negative", doc), True, kind="negative")
+            if (mr.title, mr.servings) != (t, n):
+                run.violate("C18:heading-rule-wrong", "%r gives %r, expected %r" % (doc, (mr.title, mr.servings), (t, n)), {"document": doc, "expected": [t, n]})
+            # the same document read from a file (site generator, stand-alone page, commands), in each line-ending convention of text files
+            for name, eol in (("lf", "\n"), ("crlf", "\r\n"), ("cr", "\r")):
+                run.case(("negative-file", name, doc), True, kind="file-route:" + name)
+                got = file_route(scratch, doc, eol)
+                if got != (t, n):
+                    run.violate("C18:heading-rule-wrong:file:" + name, "%r in a file with %s line endings gives %r, expected %r" % (doc, name, got, (t, n)),
+                                {"document": doc, "expected": [t, n], "file_eol": eol})
+        for phrase in DOCUMENTED:
+            for name, eol in (("lf", "\n"), ("crlf", "\r\n"), ("cr", "\r")):
+                doc = "# Leek soup %s  7  \n\nText.\n\n    2 leeks\n" % phrase.upper()
+                run.case(("documented-file", name, doc), True, kind="file-route:" + name)
+                got = file_route(scratch, doc, eol)
+                if got != ("Leek soup", 7):
+                    run.violate("C18:heading-rule-wrong:file:" + name, "%r in a file with %s line endings gives %r" % (doc, name, got), {"document": doc, "expected": ["Leek soup", 7], "file_eol": eol})
+    finally:
+        shutil.rmtree(scratch, ignore_errors=True)
 
 
 def replay(run, obj):
     r = obj["replay"]
+    if "file_eol" in r:
+        import shutil
+        from .. import gen_site
+        scratch = gen_site.scratch_root()
+        try:
+            got = file_route(scratch, r["document"], r["file_eol"])
+        finally:
+            shutil.rmtree(scratch, ignore_errors=True)
+        print(got)
+        return list(got) != r["expected"]
     if "document" in r:
         mr = M.compile_markdown(r["document"])
         bad = [mr.title, mr.servings] != r["expected"]
